@@ -132,6 +132,15 @@ def structural_update0(op, tree_tpl, parallel=False):
     if o == 'gen':
         g = template(op['tpl'], op['x0'], parallel)
         g['key'] = op['k']
+        if op.get('stepsin'):
+            # the older way: the steps listed among the processes (their flow
+            # still in 'flow')
+            for k, v in g.pop('steps').items():
+                if isinstance(v, dict):
+                    g['processes'].setdefault(k, {}).update(v)
+                else:
+                    g['processes'][k] = v
+            g['steps'] = {}
         return {'agents': {'_generate': [g]}}
     if o in ('div', 'divx'):
         tpl = tree_tpl[('agents', op['k'])]
@@ -323,6 +332,22 @@ def proc_leaves(d, prefix=()):
     return out
 
 
+def published_split(eng):
+    """The published processes and steps, told apart by what they are: a step
+    may be published among the processes (the older way of listing steps, which
+    a _generate may use as well); a new engine treats it as a step either way."""
+    def walk(d, prefix=()):
+        if isinstance(d, dict):
+            for k, v in d.items():
+                yield from walk(v, prefix + (k,))
+        elif isinstance(d, Process):
+            yield flat(prefix), d
+    procs, steps = [], []
+    for path, obj in list(walk(eng.processes)) + list(walk(eng.steps)):
+        (steps if obj.is_step() else procs).append(path)
+    return procs, steps
+
+
 def flow_leaves(d, prefix=()):
     out = []
     if isinstance(d, dict):
@@ -401,8 +426,8 @@ def project(eng, prev_ids):
         'esteps': comp_paths([flat(p) for p in eng._step_paths]),
         'eseq': [flat(p) for p in g._sequential_steps],
         'deps': sorted(deps),
-        'pubP': comp_paths(proc_leaves(eng.processes)),
-        'pubS': comp_paths(proc_leaves(eng.steps)),
+        'pubP': comp_paths(published_split(eng)[0]),
+        'pubS': comp_paths(published_split(eng)[1]),
         'pubF': sorted(x for x in flow_leaves(eng.flow) if x[0][0] in ('agents', 'pool')),
         'pubT': comp_paths(topo_leaves(eng.topology)),
         'hierP': comp_paths(proc_leaves(eng.state.get_processes() or {})),
@@ -719,6 +744,8 @@ def random_history(rng, length, initial_model, **kw):
             op['noise'] = rng.choice([1, 2])
         if op['op'] == 'div' and rng.random() < 0.5:
             op['keyonly'] = True
+        if op['op'] == 'gen' and rng.random() < 0.3:
+            op['stepsin'] = True
         if op['op'] in ('del', 'delpath') and rng.random() < 0.5:
             op['via'] = rng.choice(['root', 'root', 'dotdot'])
         ops.append(op)
